@@ -73,8 +73,10 @@ func (r *Report) Violate(v Violation) {
 	r.mu.Lock()
 	defer r.mu.Unlock()
 	r.ViolationsTotal++
-	r.sigs[v.Sig]++
-	if r.sigs[v.Sig] > 1 || len(r.Violations) >= maxStored {
+	// a violation excused by a known finding never stands in for an unexcused one with the same signature
+	key := v.Sig + "|" + v.KF
+	r.sigs[key]++
+	if r.sigs[key] > 1 || len(r.Violations) >= maxStored {
 		return
 	}
 	r.Violations = append(r.Violations, v)
@@ -389,8 +391,9 @@ func MergeShardReports(property, phase, engine string) (*Report, error) {
 			}
 		}
 		for _, v := range r.Violations {
-			m.sigs[v.Sig]++
-			if m.sigs[v.Sig] == 1 && len(m.Violations) < maxStored {
+			key := v.Sig + "|" + v.KF
+			m.sigs[key]++
+			if m.sigs[key] == 1 && len(m.Violations) < maxStored {
 				m.Violations = append(m.Violations, v)
 			}
 		}
